@@ -36,6 +36,9 @@ func Root() string {
 
 // LoadFindings parses the known-findings file (missing file = none).
 func LoadFindings() ([]Finding, error) {
+	if os.Getenv("VERIF_NO_KF") != "" { // debugging aid: show every violation
+		return nil, nil
+	}
 	f, err := os.Open(filepath.Join(Root(), "known_findings.txt"))
 	if err != nil {
 		if os.IsNotExist(err) {
